@@ -156,7 +156,8 @@ def gen_history(rng, length, attached_regions=True, big=False):
         k = rng.random()
         if rng.random() < 0.35:
             n = max(0, rng.choice([ln[v], ln[v] + 1, ln[v] - 1, ln[w], last_removed[v], last_removed[v] + 1,
-                                   max(0, last_removed[v] - 1), 2 * ln[v], ln[v] // 2]))
+                                   max(0, last_removed[v] - 1), 2 * ln[v], ln[v] // 2,
+                                   ln[v] + last_removed[v], ln[v] + (last_removed[v] + 1) // 2]))
             n = min(n, 300)
         else:
             n = rng.choice(sizes)
@@ -235,6 +236,25 @@ def exhaustive(depth, rng=None, limit=None):
     return hs
 
 
+def boundary_family(maxcap):
+    """exhaustive parametric family around the capacity / head-room boundaries: an owning buffer of capacity C
+    holding k bytes of which r were removed at the front, followed by every kind of growing/shrinking op with
+    every size 0..C+2 (selects in-place / compact / shift / head-room / reallocate)"""
+    hs = []
+    pat = [0x61 + i for i in range(26)]
+    for cap in range(maxcap + 1):
+        for k in range(cap + 2):
+            for r in range(k + 2):
+                pre = [f"newcap 0 {cap}", f"append 0 {hexs(pat[:k])}", f"removeFront 0 {r}"]
+                tails = ["appendb 0 0", "prependb 0 0", "assignb 0 0", "clear 0", "swap 0 1", "copy 1 0", "appendb 1 0", "prependb 1 0"]
+                for n in range(cap + 3):
+                    d = hexs([0x41 + i for i in range(n)])
+                    tails += [f"resize 0 {n}", f"append 0 {d}", f"prepend 0 {d}", f"assign 0 {d}", f"removeBack 0 {n}",
+                              f"reserve 0 {n}"]
+                hs += [pre + [t, "prepend 0 7a", "eq 0 1"] for t in tails]
+    return hs
+
+
 def nontrivial(h, out):
     """distinct = distinct (set of op kinds, final observation); non-trivial = at least 3 ops and a non-empty buffer"""
     if len(h) < 3 or not out:
@@ -245,6 +265,112 @@ def nontrivial(h, out):
     return (frozenset(l.split()[0] for l in h), last)
 
 
+# ---- branch statistics (evidence only, never a verdict) -----------------------------------------
+def branch_stats(hist, impl_out, cnt):
+    """abstract replay (ownership kind, start, end, capacity) of a history, counting which branch of
+    Buffer.hpp each op takes.  Cross-checked against the implementation's size/ownership output; on a
+    mismatch the history is counted under 'stats-mismatch' and abandoned (statistics only)."""
+    st = [["dflt", 0, 0, 0], ["dflt", 0, 0, 0]]
+
+    def hit(k):
+        cnt[k] = cnt.get(k, 0) + 1
+
+    def realloc(b, size, cap):
+        b[:] = ["own", 0, size, cap]
+
+    def resize(b, n, tag):
+        k, s_, e_, cap = b
+        if n > cap:
+            hit(f"{tag}.realloc.{k}"); realloc(b, n, n)
+        elif k != "own":
+            hit(f"{tag}.nonowning"); b[2] = s_
+        elif s_ + n <= cap:
+            hit(f"{tag}.inplace"); b[2] = s_ + n
+        else:
+            hit(f"{tag}.compact"); b[1], b[2] = 0, n
+
+    def prepend(b, n, tag, selfalias=False):
+        k, s_, e_, cap = b
+        old = e_ - s_
+        if k == "own" and s_ >= n:
+            hit(f"{tag}.headroom"); b[1] = s_ - n
+        elif k == "own" and cap >= n + old and not selfalias:
+            hit(f"{tag}.shift"); b[1], b[2] = 0, n + old
+        else:
+            hit(f"{tag}.realloc.{k}"); realloc(b, n + old, n + old)
+
+    def assign(b, n, tag):
+        k, s_, e_, cap = b
+        if n > cap:
+            hit(f"{tag}.realloc.{k}"); realloc(b, n, n)
+        elif k != "own":
+            hit(f"{tag}.nonowning"); b[2] = s_
+        else:
+            hit(f"{tag}.inplace"); b[1], b[2] = 0, n
+
+    def home(b):
+        if b[0] == "own":
+            b[1] = b[2] = 0
+        else:
+            b[:] = ["dflt", 0, 0, b[3]]
+
+    for k_, line in enumerate(hist):
+        t = line.split()
+        op = t[0]
+        v = int(t[1]) if len(t) > 1 else 0
+        w = int(t[2]) if len(t) > 2 and op in ("copy", "assignb", "prependb", "appendb", "swap", "eq") else 0
+        b = st[v] if v < 2 else None
+        if b is None or op == "eq":
+            continue
+        size = b[2] - b[1]
+        osz = st[w][2] - st[w][1]
+        dl = 0 if len(t) < 3 or t[2] == "-" else len(t[2]) // 2
+        if op in ("new", "free"): b[:] = ["dflt", 0, 0, 0]; hit(op)
+        elif op == "newcap": realloc(b, 0, int(t[2])); hit(op)
+        elif op == "newdata": realloc(b, dl, dl); hit(op)
+        elif op == "copy":
+            hit("copy.self-skipped" if v == w else "copy")
+            if v != w: realloc(b, osz, osz)
+        elif op == "attach": b[:] = ["att", 0, int(t[4]), 0]; hit(f"attach.len{'0' if int(t[4]) == 0 else '+'}")
+        elif op == "assign": assign(b, dl, "assign")
+        elif op == "assignb": assign(b, osz, "assignb.self" if v == w else "assignb")
+        elif op == "prepend": prepend(b, dl, "prepend")
+        elif op == "prependb": prepend(b, osz, "prependb.self" if v == w else "prependb", v == w)
+        elif op == "append": resize(b, size + dl, "append")
+        elif op == "appendb": resize(b, size + osz, "appendb.self" if v == w else "appendb")
+        elif op == "resize": resize(b, int(t[2]), "resize")
+        elif op == "removeFront":
+            n = int(t[2])
+            if b[1] + n >= b[2]: hit(f"removeFront.empties.{b[0]}"); home(b)
+            else: hit("removeFront.partial"); b[1] += n
+        elif op == "removeBack":
+            n = int(t[2])
+            if b[1] + n >= b[2]: hit(f"removeBack.empties.{b[0]}"); home(b)
+            else: hit("removeBack.partial"); b[2] -= n
+        elif op == "reserve":
+            n = int(t[2])
+            if n <= b[3]: hit("reserve.noop")
+            else: hit(f"reserve.realloc.{b[0]}"); realloc(b, size, max(n, size))
+        elif op == "clear":
+            hit(f"clear.{b[0]}")
+            if b[0] == "own": b[1] = b[2] = 0
+            else: b[2] = b[1]
+        elif op == "swap":
+            hit("swap.rehome" if "dflt" in (st[v][0], st[w][0]) else "swap")
+            st[v], st[w] = st[w], st[v]
+        # cross-check with the implementation's `size bytes owned term`
+        if k_ < len(impl_out) and " # " in impl_out[k_]:
+            try:
+                vs = impl_out[k_].split(" # ")[0].split(" | ")
+                for i in range(2):
+                    ta = vs[i].split(" ")
+                    if int(ta[0]) != st[i][2] - st[i][1] or (ta[2] == "1") != (st[i][0] == "own"):
+                        hit("stats-mismatch")
+                        return
+            except (ValueError, IndexError):
+                return
+
+
 def _batch(args):
     harness, driver, part = args
     ds, nlines, done, crash, ios = C.run_batch(harness, driver, part, reference, C.wildcard_eq, 600)
@@ -252,11 +378,13 @@ def _batch(args):
         ds.append(C.Diff(part[-1] if part else [], max(0, len(part[-1]) - 1) if part else 0,
                          "impl-exit", f"exit code {crash[0]}", None, None, crash[1]))
     keys = set()
+    cnt = {}
     for h, o in zip(part, ios):
         k = nontrivial(h, o)
         if k is not None:
             keys.add(k)
-    return ds, nlines, done, keys
+        branch_stats(h, o, cnt)
+    return ds, nlines, done, keys, cnt
 
 
 def differential_mp(ctx, harness, driver, histories):
@@ -269,11 +397,15 @@ def differential_mp(ctx, harness, driver, histories):
     parts = [(harness, driver, histories[i:i + chunk]) for i in range(0, len(histories), chunk)]
     diffs, keys = [], set()
     with mp.get_context("fork").Pool(C.NCPU) as pool:
-        for ds, nlines, done, ks in pool.imap(_batch, parts):
+        hits = {}
+        for ds, nlines, done, ks, cnt in pool.imap(_batch, parts):
             ctx.cov["evaluations"] += nlines
             ctx.cov["traces_validated_against_impl"] += done
             diffs += ds
             keys |= ks
+            for k, n in cnt.items():
+                hits[k] = hits.get(k, 0) + n
+        ctx.cov["branch_hits"] = dict(sorted(hits.items()))
     ctx.cov["distinct_nontrivial"] = ctx.cov.get("distinct_nontrivial", 0) + len(keys)
     return diffs
 
@@ -284,18 +416,20 @@ def histories_for(ctx):
     hs = C.load_corpus(ctx.prop)
     ncorpus = len(hs)
     ex = exhaustive(3 if quick else 4)
+    fam = boundary_family(6 if quick else 12)
     nr = 15000 if quick else 120000
     rnd = [gen_history(rng, rng.choice([5, 10, 20, 40])) for _ in range(nr)]
     rnd += [gen_history(rng, rng.choice([10, 30, 60]), big=True) for _ in range(nr // 6)]
     rnd += [gen_server(rng, rng.choice([10, 40])) for _ in range(nr // 10)]
     ctx.cov["rule"] = (f"corpus ({ncorpus}) + exhaustive: all op sequences of length <= {3 if quick else 4} over a {len(SMALL_OPS)}-op "
                        f"alphabet (sizes 0,1,3,4,5; attach; self/other arguments)"
-                       f" ({len(ex)} histories) + {len(rnd)} random histories (5..60 ops over 2 variables and 2 attachable regions which may be shared; "
+                       f" ({len(ex)} histories) + capacity/head-room boundary family: capacity 0..{6 if quick else 12} x bytes held x bytes removed x "
+                       f"every growing/shrinking op with sizes 0..capacity+2 ({len(fam)} histories) + {len(rnd)} random histories (5..60 ops over 2 variables and 2 attachable regions which may be shared; "
                        "sizes 0..16, boundary sizes relative to the current lengths, 1/7 with sizes up to 300, 1/11 following the Server.cpp send-backlog pattern); "
                        "distinct_nontrivial = distinct (op-kind set, final observation) among histories with >= 3 ops and a non-empty final buffer")
     ctx.cov["exhaustive"] = True   # the enumerated scope is run completely (the random part is sampled)
-    ctx.cov["exhaustive_scope"] = f"length<={3 if quick else 4} over {len(SMALL_OPS)} ops: {len(ex)} histories"
-    return hs + ex + rnd
+    ctx.cov["exhaustive_scope"] = f"length<={3 if quick else 4} over {len(SMALL_OPS)} ops: {len(ex)} histories; boundary family: {len(fam)} histories"
+    return hs + ex + fam + rnd
 
 
 def check(ctx):
